@@ -207,7 +207,7 @@ class ActionConfigFile(Action):
                 cfg_file = parser.parse_path(value, **kwargs)
             cfg_merged = parser.merge_config(cfg_file, cfg)
             cfg.__dict__.update(cfg_merged.__dict__)
-            if cfg.get(dest) is None:
+            if not isinstance(cfg.get(dest), list):
                 cfg[dest] = []
             cfg[dest].append(cfg_path)
 
